@@ -641,11 +641,61 @@ func (a *FA) expandBoolPhis(dnf [][]Cond) [][]Cond {
 			}
 			pol[c.V] = c.Pol
 		}
+		if ok && a.eqConstContradiction(cs) {
+			ok = false
+		}
 		if ok {
 			feasible = append(feasible, cs)
 		}
 	}
 	return feasible
+}
+
+// eqConstContradiction: the conditions say x == k1 and x == k2 (k1 != k2), or x == k and x != k, for some value x
+// compared with integer constants (switch cases after a guard on the same variable).
+func (a *FA) eqConstContradiction(cs []Cond) bool {
+	eq := map[string]int64{}
+	hasEq := map[string]bool{}
+	ne := map[string]map[int64]bool{}
+	for _, c := range cs {
+		bo, ok := c.V.(*ssa.BinOp)
+		if !ok || (bo.Op != token.EQL && bo.Op != token.NEQ) {
+			continue
+		}
+		var x ssa.Value
+		var k int64
+		found := false
+		for _, side := range [2][2]ssa.Value{{bo.X, bo.Y}, {bo.Y, bo.X}} {
+			if kk, isK := constInt64(stripConv(side[1])); isK {
+				if _, isC := stripConv(side[0]).(*ssa.Const); !isC && isIntType(side[0].Type()) {
+					x, k, found = side[0], kk, true
+					break
+				}
+			}
+		}
+		if !found {
+			continue
+		}
+		key := a.VN(x)
+		isEq := (bo.Op == token.EQL) == c.Pol
+		if isEq {
+			if hasEq[key] && eq[key] != k {
+				return true
+			}
+			hasEq[key], eq[key] = true, k
+		} else {
+			if ne[key] == nil {
+				ne[key] = map[int64]bool{}
+			}
+			ne[key][k] = true
+		}
+	}
+	for key, k := range eq {
+		if hasEq[key] && ne[key][k] {
+			return true
+		}
+	}
+	return false
 }
 
 func (a *FA) condsDNF(blk *ssa.BasicBlock, depth int) [][]Cond {
@@ -654,6 +704,37 @@ func (a *FA) condsDNF(blk *ssa.BasicBlock, depth int) [][]Cond {
 		if blk.Dominates(p) {
 			isHeader = true
 		}
+	}
+	if len(blk.Preds) == 1 && !isHeader && depth <= 4 {
+		// a straight chain of tests (switch cases, guard clauses) leads up to a merge whose alternatives matter: the
+		// chain's own conditions are added to each of them (`if w != A && w != B {return}; switch w {case A: .. case B: ..}`
+		// leaves no way past the last case)
+		var chain []Cond
+		b := blk
+		for steps := 0; len(b.Preds) == 1 && steps < 12; steps++ {
+			hdr := false
+			for _, p := range b.Preds {
+				if b.Dominates(p) {
+					hdr = true
+				}
+			}
+			if hdr {
+				break
+			}
+			chain = append(chain, selfCond(b.Preds[0], b)...)
+			b = b.Preds[0]
+		}
+		if len(b.Preds) > 1 && b != blk {
+			up := a.condsDNF(b, depth+1)
+			if len(up) > 1 {
+				var out [][]Cond
+				for _, cs := range up {
+					out = append(out, append(append([]Cond{}, cs...), chain...))
+				}
+				return out
+			}
+		}
+		return [][]Cond{a.Conds(blk)}
 	}
 	if len(blk.Preds) <= 1 || depth > 4 || isHeader {
 		return [][]Cond{a.Conds(blk)}
